@@ -241,7 +241,178 @@ def unresolved_reference_rule(cx, rep, rid):
     rep.floor(rid, "Ref arms of the semantic converter", n, 1)
 
 
+# ---------------------------------------------------------------------------------------------------- C13.15
+def digest_context_pairing_rule(cx, rep, rid):
+    """The digest context may carry the bookkeeping of the CURRENT path (the named types being encoded: set on entry,
+    deleted on exit) - that is what makes recursion terminate and alpha-equivalent recursive types agree.  A table that
+    is only ever added to remembers what was encoded EARLIER in the same call: the encoding of a type then depends on
+    whether the same named type was met before, i.e. on alias boundaries (`{a: P, b: P}` vs the same type with P inlined;
+    seed C13-r wrote back-references to completed encodings).  Decided: in every hash256 method each `ctx.<table>.set /
+    add / push(..)` has a `ctx.<table>.delete / pop(..)` on the same table in the same method."""
+    from rules.ts_common import Family, fn_params
+    fam = Family(cx)
+    mod = fam.mod
+    n = 0
+    for cname, c in sorted(fam.classes.items()):
+        m = c.methods.get("hash256")
+        fn = m.get("function") if m else None
+        if fn is None or fn.get("body") is None:
+            continue
+        ps = fn_params(fn)
+        if not ps:
+            continue
+        ctxn = ps[0]
+        adds, dels = {}, set()
+        for x in twalk(fn):
+            if x["type"] == "CallExpression":
+                mm = re.match(r"^%s\.(\w+)\.(set|add|push|delete|pop|clear)$" % re.escape(ctxn), ts_s(x["callee"]) or "")
+                if mm:
+                    if mm.group(2) in ("set", "add", "push"):
+                        adds.setdefault(mm.group(1), x)
+                    else:
+                        dels.add(mm.group(1))
+        for tab, x in sorted(adds.items()):
+            n += 1
+            rep.ob(rid, "%s.hash256/%s-paired" % (cname, tab), tab in dels,
+                   "%s.hash256 adds to `%s.%s` and never removes from it: the table remembers what was encoded earlier in the same call, so the encoding of a type depends on whether a named type was met before - the digest depends on alias boundaries, and alpha-equivalent recursive types can differ" % (cname, ctxn, tab),
+                   mod.loc(x), sample={"class": cname, "table": tab})
+    rep.floor(rid, "tables of the digest context that hash256 methods add to", n, 1)
+
+
+# ---------------------------------------------------------------------------------------------------- C08.20 = C13.16
+def digest_structure_directed_rule(cx, rep, rid):
+    """hash256 encodes the validator tree as it is: a class writes its own tag and hands each child to the child's own
+    hash256.  A method that looks at WHAT a child is (`instanceof`) or looks through a reference itself
+    (`getNamedRuntypes()[..]`) to re-shape the encoding implements one rewrite of the type algebra by hand - and only
+    to the depth it was written for: seed C08-r spliced a member that names a union, one alias hop deep, so adding a
+    second alias changed the digest.  Decided: outside the reference classes, no hash256 method (or private method it
+    calls) contains an `instanceof` test or resolves a reference through the name table."""
+    from rules.ts_common import Family
+    fam = Family(cx)
+    mod = fam.mod
+    n = 0
+    for cname, c in sorted(fam.classes.items()):
+        m = c.methods.get("hash256")
+        fn = m.get("function") if m else None
+        if fn is None or fn.get("body") is None or "Ref" in cname:
+            continue
+        n += 1
+        bodies = [fn]
+        for x in twalk(fn):
+            if x["type"] == "CallExpression" and (ts_s(x["callee"]) or "").startswith("this."):
+                h = c.methods.get(ts_s(x["callee"])[5:])
+                if h is not None and h.get("function") is not None and h["function"] is not fn:
+                    bodies.append(h["function"])
+        bad = []
+        for b in bodies:
+            for x in twalk(b):
+                # (a test for the optional-field wrapper of one's own property is part of the class's own encoding; what
+                # is ruled out is looking THROUGH a child: references and the union / intersection combinators)
+                if x["type"] == "BinaryExpression" and x["operator"] == "instanceof" and re.search(r"Ref|AnyOf|AllOf", ts_s(x["right"]) or ""):
+                    bad.append(x)
+                if x["type"] == "CallExpression" and (ts_s(x["callee"]) or "").endswith("getNamedRuntypes"):
+                    bad.append(x)
+        rep.ob(rid, "%s.hash256/structure-directed" % cname, not bad,
+               "%s.hash256 inspects what a child is (%s) instead of handing it to the child's own hash256: a hand-written rewrite of the encoding holds only to the depth it was written for, so two spellings of one type that differ by an alias hop get different digests" % (cname, ts_s(bad[0])[:60] if bad else "?"),
+               mod.loc(bad[0]) if bad else mod.loc(fn), sample={"class": cname})
+    rep.floor(rid, "hash256 methods outside the reference classes", n, 15)
+
+
+# ---------------------------------------------------------------------------------------------------- C03.25
+def validate_context_not_assigned_rule(cx, rep, rid):
+    """validate() is called again and again with ONE context: by parse (which re-validates every branch of a union
+    with the context of the whole call), by the reporters, by the key checks.  A field of the context that a validate()
+    method changes is state shared by all those calls; unless every exit restores it, an input that takes the
+    unrestored exit often enough changes what later validate() calls answer - inside one parse (seed C03-r: a depth
+    counter not restored on `return false` made parse drop items that validate accepts).  Decided: no `validate`
+    method of a runtime class assigns or updates a field of its context parameter."""
+    from rules.ts_common import Family, fn_params
+    fam = Family(cx)
+    mod = fam.mod
+    n = 0
+    for cname, c in sorted(fam.classes.items()):
+        m = c.methods.get("validate")
+        fn = m.get("function") if m else None
+        if fn is None or fn.get("body") is None:
+            continue
+        ps = fn_params(fn)
+        if not ps:
+            continue
+        n += 1
+        ctxn = ps[0]
+        bad = [x for x in twalk(fn) if x["type"] in ("AssignmentExpression", "UpdateExpression") and re.match(r"^%s\.\w+" % re.escape(ctxn), ts_s(x.get("left") or x.get("argument") or {}) or "")]
+        rep.ob(rid, "%s.validate/context-not-assigned" % cname, not bad,
+               "%s.validate changes `%s`: the context is shared by every validate() call of one parse / report (parse re-validates each branch of a union with it), so a change that is not undone on EVERY exit makes later answers depend on earlier inputs - validate accepts a value and parse, validating again, drops parts of it" % (cname, ts_s(bad[0].get("left") or bad[0].get("argument")) if bad else "?"),
+               mod.loc(bad[0]) if bad else mod.loc(fn), sample={"class": cname})
+    rep.floor(rid, "validate() methods of the runtime classes", n, 15)
+
+
+# ---------------------------------------------------------------------------------------------------- C04.15
+def visitor_not_pruned_rule(cx, rep, rid):
+    """The entry file is walked by a local implementation of swc's `Visit` that finds the `buildParsers<{..}>()` call.
+    A `visit_*` method overridden with an EMPTY body prunes the walk at that node kind: a call written inside it is
+    never seen, and compilation "succeeds" with no parser for the requested names and no diagnostic (seed C04-r: an empty
+    `visit_block_stmt`).  Decided: in the visitor that discovers the special calls (the local `Visit` impl whose
+    `visit_call_expr` is overridden) no overridden `visit_*` method has an empty body."""
+    F = cx.rs
+    n = 0
+    impls = {}
+    for g, f in F.fns.items():
+        if f.crate == CRATE and (f.impl_trait or "").endswith("::Visit") and f.name.startswith("visit_") and g in F.hir:
+            impls.setdefault(f.impl_self, []).append((g, f))
+    for self_ty, ms in sorted(impls.items()):
+        if not any(f.name == "visit_call_expr" for _, f in ms):
+            continue
+        for g, f in sorted(ms):
+            n += 1
+            b = F.hir[g]["body"]
+            while b.get("k") == "BlockExpr":
+                b = b["block"]
+            empty = b.get("k") == "Block" and not (b.get("stmts") or []) and b.get("expr") is None
+            rep.ob(rid, "%s/%s" % (self_ty.rsplit("::", 1)[-1], f.name), not empty,
+                   "%s overrides %s with an empty body: the walk that looks for the buildParsers call never enters that kind of node, so a call written inside one is not discovered - the compiler returns a module without the requested parsers and without a diagnostic" % (self_ty, f.name),
+                   f.loc(), sample={"visitor": self_ty, "method": f.name})
+    rep.floor(rid, "overridden visit methods of the call-discovering visitors", n, 1)
+
+
+# C06.10
+def template_table_rule(cx, rep, rid):
+    """The string table of the engine (literals, formats, template literals) is exact only while any two entries are
+    NESTED or DISJOINT: union / intersection / difference are computed entry by entry with the inclusion test.  A
+    template literal with holes can contain a literal (`"ab"` in `a${string}`) or overlap another template without
+    being identical to it; the inclusion test of template literals therefore refuses what it cannot decide (an error,
+    which becomes a diagnostic) - an `equal or unrelated` fallback turns overlapping entries into `disjoint` ones and the
+    three operations silently return wrong sets (seed C06-r).  Decided: in the inclusion test of two template-literal
+    types (Result<bool>) every catch-all arm leaves with an error - no `Ok(..)` in an arm whose pattern binds nothing."""
+    F = cx.rs
+    n = 0
+    for g, f, t in _fn_trees(F, "packages/beff-core/src/subtyping"):
+        ins = [(i or "").lstrip("&").strip() for i in (f.inputs or [])]
+        if f.kind == "Closure" or len(ins) != 2 or not all(i.endswith("TplLitType") for i in ins) or "Result<bool" not in (f.output or ""):
+            continue
+        n += 1
+        bad = []
+        for x in walk(t["body"]):
+            if x["k"] != "Match" or x.get("src") != "Normal":
+                continue
+            for a in x["arms"]:
+                pats = [p_ for p_ in walk(a["pat"])]
+                catch_all = all(p_["k"] in ("P.Wild", "P.Tuple") for p_ in pats if isinstance(p_, dict) and p_.get("k", "").startswith("P."))
+                if catch_all and any(y["k"] == "Call" and (y.get("callee") or "").endswith("::Ok") for y in walk(a["body"])):
+                    bad.append(a)
+        rep.ob(rid, "%s/undecided-is-an-error" % f.name, not bad,
+               "%s answers the inclusion of two template-literal types in its catch-all arm (line %s) instead of refusing: a template with holes that contains a literal, or overlaps another template, is then an entry `unrelated` to it, and the entry-wise union / intersection / difference of string tables return wrong sets (`(\"ab\" | \"c\") \\ `a${string}`` keeps \"ab\")" % (g, bad[0]["line"] if bad else "?"),
+               "%s:%s" % (f.file, bad[0]["line"] if bad else f.line), sample={"fn": g})
+    rep.floor(rid, "inclusion tests of two template-literal types", n, 1)
+
+
 REGISTRY = {
+    "C06": [("C06.10", "the inclusion test of template literals refuses what it cannot decide (string-table entries stay nested or disjoint)", template_table_rule)],
+    "C13": [("C13.16", "hash256 is structure-directed: no instanceof on a child, no look-through of references outside the reference classes (= C08.20)", digest_structure_directed_rule),
+            ("C13.15", "the digest context carries path bookkeeping only: every table added to is also removed from in the same method", digest_context_pairing_rule)],
+    "C08": [("C08.20", "hash256 is structure-directed: no instanceof on a child, no look-through of references outside the reference classes", digest_structure_directed_rule)],
+    "C03": [("C03.25", "validate() methods never change a field of the context they are handed", validate_context_not_assigned_rule)],
+    "C04": [("C04.15", "the visitor that discovers the buildParsers call prunes no node kind (no empty visit_* override)", visitor_not_pruned_rule)],
     "C09": [("C09.24", "the search through the `export *` targets of a module is ended only by a hit", star_search_rule)],
     "C12": [("C12.16", "a reporter hands its branches a fresh scratch path (no path state on the validator instance)", fresh_scratch_path_rule)],
     "C01": [("C01.30", "custom formats are compared as brand sets (= C05.18)", format_brand_set_rule)],
